@@ -12,10 +12,15 @@ def run(chk, replay=None, prop="C03"):
     n = 10 if quick else 70
     variants = {"reset_step": dict(drive="reset_step")}
     if not quick: variants["run"] = dict(drive="run")
-    if prop == "C04":
-        # expected delays re-configured between two episodes of the same graph object: phases (hence the schedule) of the second episode follow
-        variants["set_delay_between"] = dict(drive="reset_step", episodes=2, between="auto")
-    graphs = al.async_suite(chk, n, variants, max_nodes=4 if quick else 5, model_seeds=(1, 2))
+    # expected delays re-configured between two episodes of the same graph object: phases (hence the schedule, the blocking counts and the expected
+    # arrivals of buffered jitter) of the second episode follow
+    variants["set_delay_between"] = dict(drive="reset_step", episodes=2, between="auto")
+    count = [0]
+    def gen(rnd, max_nodes=4):
+        count[0] += 1
+        if count[0] % 5 == 3: return buffer_cfg(rnd)
+        return al.gen_cfg(rnd, max_nodes=max_nodes)
+    graphs = al.async_suite(chk, n, variants, max_nodes=4 if quick else 5, model_seeds=(1, 2), gen=gen)
     evaluate(chk, graphs, variants, prop)
     if not quick and prop == "C03":
         wall_clock(chk)
@@ -38,7 +43,7 @@ def evaluate(chk, graphs, variants, prop):
                 continue
             ep = al.canon_neg(r["episodes"][0])
             if vn == "set_delay_between":
-                second_episode(chk, G, r); continue
+                second_episode(chk, G, r, prop); continue
             feats = al.features(cfg)
             ties = tie_features(cfg, ep)
             chk.case(key, feats + ties, dict(cfg=cfg) if len(chk.samples) < 2 else None)
@@ -60,7 +65,24 @@ def evaluate(chk, graphs, variants, prop):
     return
 
 
-def second_episode(chk, G, r):
+def buffer_cfg(rnd):
+    """buffered jitter where it bites: a slow sender whose messages arrive (almost) immediately, a receiver twice as fast, and a declared connection
+    delay that the user raises by 2-3 ticks between two episodes - messages then sit in the connection, already arrived, until their (new)
+    expected arrival seq * period_sender + phase"""
+    Ps = rnd.choice([4, 8]); e0 = rnd.choice([0, 1]); ec = rnd.choice([0, 1])
+    nodes = {"n0": dict(nid=0, period=Ps, exp=e0, delays=[0], advance=False, sched="FREQ"),
+             "n1": dict(nid=1, period=Ps // 2, exp=rnd.choice([0, 1]), delays=rnd.choice([[0], [0, 1], [1]]), advance=False, sched=rnd.choice(["FREQ", "PHASE"]))}
+    conns = {"n0>n1": dict(out="n0", **{"in": "n1"}, blocking=False, skip=rnd.random() < 0.3, jitter="BUFFER", window=rnd.choice([1, 2, 3]), exp=ec, delays=rnd.choice([[0], [0, 1]]))}
+    if conns["n0>n1"]["skip"]: conns["n0>n1"]["skip"] = False       # phases follow non-skipped connections only
+    sup = "n1"
+    if rnd.random() < 0.4:
+        nodes["n2"] = dict(nid=2, period=Ps, exp=1, delays=[1], advance=False, sched="FREQ")
+        conns["n1>n2"] = dict(out="n1", **{"in": "n2"}, blocking=rnd.random() < 0.5, skip=False, jitter="LATEST", window=1, exp=1, delays=[1])
+        sup = rnd.choice(["n1", "n2"])
+    return dict(nodes=nodes, conns=conns, sup=sup, steps=rnd.choice([8, 10]), _between={"n0>n1": ec + Ps // 2 + rnd.choice([0, 1])})   # raise by at least one receiver period
+
+
+def second_episode(chk, G, r, prop="C04"):
     """episode 1 after set_delay(delay=...) between the episodes: judged with the phases in force for that episode (reported by the worker
     after the change) by the C04 reference recurrence and against the model run with those phases"""
     cfg = G["cfg"]
@@ -69,7 +91,7 @@ def second_episode(chk, G, r):
     chk.case((repr(cfg), "set_delay_between", repr(G.get("between"))), al.features(cfg) + ["set_delay-between-episodes"], None); chk.traces_impl += 1
     cfg2 = G["cfg_after"]
     case = dict(cfg=cfg, between=G.get("between"), node_phase_after=nph)
-    vs = ac.check_c04(cfg2, nph, cph, ep["record"])
+    vs = (ac.check_c03 if prop == "C03" else ac.check_c04)(cfg2, nph, cph, ep["record"])
     for sig, det in vs[:2]: chk.violation(sig + "(after-set_delay)", f"second episode after set_delay(delay=...): {det}", case)
     m = al.run_model([(cfg2, nph, cph, al.limits_of(cfg2, ep), 5)])[0]
     d = al.compare_episode(cfg2, ep, m)
